@@ -15,7 +15,7 @@ import (
 
 type c04 struct{}
 
-func init() { core.Register(c04{}) }
+func init()            { core.Register(c04{}) }
 func (c04) ID() string { return "C04" }
 
 type c04Case struct {
